@@ -403,6 +403,36 @@ package proxy
 //@   loop 3 invariant upstream != nil && hcOK(upstream)
 //@   loop 4 invariant 0 <= #i && #i <= len(to) && len(upstream.Hosts) == len(to) && upstream != nil && hcOK(upstream) && forall(k, 0, #i, createdAt(upstream.Hosts[k]) == optionsParsed)
 
+//@ unit response_hop_headers props=C04 filter=`proxy\.ReverseProxy\)\.ServeHTTP$`
+//@ // Response side of "hop-by-hop headers (including any named in Connection) removed": when the static hop-by-hop list
+//@ // (which contains Connection itself) starts to be deleted from the backend's response, every header named on ANY
+//@ // Connection line of that response is already gone. Same vocabulary as unit upstream_request: tok/ntok are
+//@ // strings.Split on ",", trim is strings.TrimSpace, canon is the canonical header key Header.Del works on.
+//@ use @verif/specs/stdlib.spec:nethttp_sinks
+//@ use @verif/specs/stdlib.spec:nethttp_api
+//@ spec canon(s string) string
+//@ spec ntok(s string) int
+//@ spec tok(s string, i int) string
+//@ spec trim(s string) string
+//@ extern (net/http.Header).Del
+//@   modifies MV:map[string][]string, MD:map[string][]string
+//@   ensures !has(h, canon(key)) && forallT(k, string, k != canon(key) ==> (has(h, k) == old(has(h, k)) && h[k] == old(h[k])))
+//@   ensures forallT(m, http.Header, m != h ==> forallT(k, string, has(m, k) == old(has(m, k)) && m[k] == old(m[k])))
+//@ extern (net/http.Header).Get
+//@   pure reads MV:map[string][]string, MD:map[string][]string, E:string
+//@ extern strings.Split
+//@   ensures len(result) == ntok(s) && forall(i, 0, len(result), result[i] == tok(s, i))
+//@ extern strings.TrimSpace
+//@   ensures result == trim(s)
+//@ extern strings.EqualFold
+//@   pure
+//@ define nm(v string, b int) string = canon(trim(tok(v, b)))
+//@ define listed(v string, b int) bool = trim(tok(v, b)) != ""
+//@ func (*ReverseProxy).ServeHTTP
+//@   may_panic
+//@   requires rp != nil && rp.dialer != nil && rw != nil && outreq != nil && outreq.URL != nil && outreq.Header != nil
+//@   at call (net/http.Header).Del#2 before [headers_named_on_every_connection_line_are_gone] forall(a, 0, len(res.Header["Connection"]), forall(b, 0, ntok(res.Header["Connection"][a]), listed(res.Header["Connection"][a], b) ==> !has(res.Header, nm(res.Header["Connection"][a], b))))
+
 //@ unit setup_sweep props=C11 files=setup.go,upstream.go nilchecks=on nonnil_params=on dispenser_variants=on exclude=`staticUpstream\)\.(HealthCheckWorker|NewHost|Select|healthCheck|healthCheck\$1|resolveHost)$|headerReplacements\)\.Add$|proxy\.(NewStaticUpstreams|RegisterPolicy|parseUpstream|replacePort)$` filter=`.`
 //@ // Safety sweep of this directive's setup code: index, slice, division, nil-map store, nil dereference, explicit panic,
 //@ // and termination of the loops driven by the token cursor. No functional contract; callees in the dispenser through their contracts.
